@@ -155,7 +155,7 @@ def run_listby(case, ctx):
     ctx.cls('nkeys:%d' % len(keys))
 
 
-AGG = {'first': lambda v: v[0], 'last': lambda v: v[-1], 'len': len}
+AGG = {'first': lambda v: v[0], 'last': lambda v: v[-1], 'len': len, 'str': str, 'wrap': lambda v: [v]}
 
 
 def run_pivot(case, ctx):
@@ -244,7 +244,7 @@ def gen_case(rng):
         cols['y'] = [rng.choice(ypool) for _ in range(n)]
         zpool = [0, 1, 2.5, 'u', 'v', 7, {'$nan': rng.randrange(9)}] + ([None, None] if rng.random() < 0.3 else [])     # None is a value a row may carry, too
         cols['z'] = [rng.choice(zpool) for _ in range(n)]
-        agg = rng.choice([None, None, 'first', 'last', 'len', ['last'], ['first']])
+        agg = rng.choice([None, None, 'first', 'last', 'len', ['last'], ['first'], ['last', 'str'], ['len', 'str'], ['first', 'wrap', 'len'], ['last', 'wrap']])     # lists apply left to right
         return {'how': 'pivot', 'cols': cols, 'x': x, 'agg': agg, 'xstr': rng.random() < 0.5, 'alias': rng.random() < 0.3}
     names = (['a', 'b', 'c', 'd'] if rng.random() > 0.1 else ['data', 'columns', 'key', 'x'])[:rng.randint(1, 4)]     # also columns called like the library's own parameters
     kinds = {c: rng.choice(['int', 'str', 'num', 'dt', 'mixed', 'mixed', 'numnan', 'bigint', 'npfloat']) for c in names}
